@@ -14,7 +14,7 @@ RULE = ("case = DAG (random/corpus shapes down to a single edge, stars, optimum=
         "non-trivial = optimum >= 2; distinct = (edges, flows, constraints, ignores, options)")
 CASE_TIMEOUT = {"quick": 240, "thorough": 900}
 REQUIRED_OBS = {"c03.compared_with_reference": 120}
-ASSUMPTIONS = ["float inputs are dyadic so that conservation and sums are exact in binary; float weight type is compared with the real-valued optimum",
+ASSUMPTIONS = ["a MinFlowDecomp run whose inner MILP hits the 60 s solver limit yields no verdict (the library then reports 'not solved', as C13 demands)", "float inputs are dyadic so that conservation and sums are exact in binary; float weight type is compared with the real-valued optimum",
                "graphs <= 12 edges so that all source-to-sink paths can be enumerated (exhaustive reference)"]
 EXHAUSTIVE = {"quick": False, "thorough": False}
 
@@ -199,11 +199,15 @@ def run_case(case):
     old = (fp.MinFlowDecomp.subgraph_lowerbound_size, fp.MinFlowDecomp.subgraph_lowerbound_shift)
     if small:
         fp.MinFlowDecomp.subgraph_lowerbound_size, fp.MinFlowDecomp.subgraph_lowerbound_shift = 3, 2
+    M.TRACE.install(); M.TRACE.reset()
     try:
-        res = models.run(inst)
+        res = models.run(inst, solver_options={"threads": 1, "time_limit": 60})
     finally:
         fp.MinFlowDecomp.subgraph_lowerbound_size, fp.MinFlowDecomp.subgraph_lowerbound_shift = old
     side = [s for s, _ in M.ROUTES.drain()]
+    if not res.get("solved") and "exc" not in res and any(t.get("status") == "kTimeLimit" for t in M.TRACE.trace):
+        # heavy-tailed MILP (60 s solver limit hit): the library correctly reports 'not solved'; no verdict on minimality from this case
+        return {"viol": [], "obs": {"c03.time_limited": 1}, "side": side, "nontrivial": False}
     desc = f"mode={mode} wt={wt} edges={[(u, v, d.get('flow')) for u, v, d in G.edges(data=True)]}" + (f" nodes={[(v, d.get('flow')) for v, d in G.nodes(data=True)]}" if mode == "node" else "") + f" cons={cons} cov={case['cov']} covlen={case.get('covlen')} ignore={ign} oo={case['oo']}"
     try:
         kstar, npaths = reference(G, mode, wt, "flow", set(ign), cons, case["cov"], case.get("covlen"))
